@@ -120,6 +120,10 @@ def shape_inputs(tier):
             ns = [5, 19, 25] + deep
         elif fam in ("subtype_chain", "subtype_cycle"):
             ns = [1, 2, 3, 40, 300] if quick else [1, 2, 3, 40, 300, 1000]      # exp2cxx is quadratic in the chain length
+        elif fam.startswith("stmt_"):
+            ns = [10, 33, 40, 100] if quick else [10, 31, 32, 33, 34, 40, 100, 200]
+        elif fam == "use_from_long":
+            ns = [200, 255, 256, 257, 300, 5000]
         elif fam.startswith("escape_"):
             ns = [100, 8191, 8192, 9000] if quick else [100, 4095, 4096, 8190, 8191, 8192, 8193, 9000, 20000, 100000]
         elif fam.startswith("longexpr_"):
@@ -275,7 +279,7 @@ def make_key(tool, r, fam):
     return re.sub(r"\s+", "_", key)
 
 
-EXTRA_MARKS = [("longexpr", ("exp_output", "format_for_std_stringout")), ("selectsearch", ("EXP_resolve_op_dot_fuzzy", "EXP_resolve_op_group_fuzzy", "EXPresolve_op_dot", "EXPresolve_op_group")),
+EXTRA_MARKS = [("errbuf", ("ERROR_nexterror", "ERROR_vprintf", "ERRORvreport_with_symbol", "errbuf")), ("longexpr", ("exp_output", "format_for_std_stringout")), ("selectsearch", ("EXP_resolve_op_dot_fuzzy", "EXP_resolve_op_group_fuzzy", "EXPresolve_op_dot", "EXPresolve_op_group")),
                ("subtype_cycle", ("ENTITYcalculate_inheritance", "ENTITYget_named_attribute", "subtype_cycle")),
                ("wide", ("non_unique_types_string",))]
 
@@ -363,6 +367,7 @@ THEOREM_SITE = {
     "C06_no_overflow_exppp_filename": ["ident_schema"],
     "C06_inheritance_terminates": ["subtype_cycle"], "C06_named_attribute_terminates": ["subtype_cycle"],
     "C06_no_overflow_non_unique_types": ["wide"], "C06_string_buffer_terminated": ["longexpr"],
+    "C06_error_heap_bounded": ["errbuf"], "C06_error_heap_index": ["errbuf"],
     "C06_select_qualifier_terminates": ["selectsearch"],
 }
 
@@ -485,6 +490,27 @@ def run(ctx):
                                                                  "rc": p.returncode, "err": err[:3000], "wall": 0, "args": ["-B"]}))
             elif not (exp[0] <= got <= exp[-1]) or p.returncode != 1:
                 disagreements.append((fam, n, "check-express -B", f"{lo} .. {hi}", f"{got} diagnostics printed, rc={p.returncode}"))
+    # buffered diagnostics (-B) through all four tools: messages around the room that is left in the 4000-byte buffer
+    body0 = len("Reference to undefined type .")
+    cases = [(1, 5000, 0, 0), (1, 100000, 0, 0), (0, 0, 30, 300), (1, 5000, 8, 400), (3, 1500, 0, 0), (1, 3000, 12, 300), (0, 0, 45, 90)]
+    cases += [(1, ll, 0, 0) for ll in ((3700, 3800, 3850, 3900, 3950, 4000, 4100) if quick else range(3600, 4200, 25))]
+    for nl, ll, nm, ml in cases:
+        data = G.diag_fill(nl, ll, nm, ml)
+        tag = f"errbuf:{nl}x{ll}+{nm}x{ml}"
+        bodies = ",".join([str(body0 + ml)] * nm + [str(body0 + ll)] * nl)
+        preds = model.ask(f"errseq 60 {bodies}", f"errseq 110 {bodies}")     # prefix "<path>:<line>: --ERROR PEnnn: " is 60..110 here
+        res = run_.run([(tag, data, None, None)], timeout=tmo, args=("-B",))
+        for t in R.TOOLS:
+            r = res[(tag, t)]
+            ncomp += 1
+            hit = r["cls"] in R.BAD and any(x in r["sig"] + r["err"][:2500] for x in ("ERROR_nexterror", "ERROR_vprintf", "ERRORvreport_with_symbol", "ERRORreport_with_symbol", "ERROR_flush_message_buffer"))
+            pov = [mclass(p) == "overflow" for p in preds]
+            if all(pov) and not hit:
+                disagreements.append(("errbuf", tag, t + " -B", preds, f"{r['cls']} {r['sig']}"))
+            elif not any(pov) and hit:
+                disagreements.append(("errbuf", tag, t + " -B", preds, f"{r['cls']} {r['sig']}"))
+            elif not any(pov) and r["cls"] != "reject":
+                disagreements.append(("errbuf", tag, t + " -B", preds, f"{r['cls']} rc={r['rc']} (expected exit 1 with the buffered diagnostics)"))
     # -w / -i option (ERRORset_warning)
     for name in ("downcast", "unknown_subtype", "no_such_class", "none", "all"):
         pred = model.one(f"setwarning {name}")
